@@ -61,6 +61,7 @@ const (
 	EvGC      = 4 // runtime.GC() x2 executed at this point
 	EvUnstall = 5 // stalled task released
 	EvStart   = 6 // first task chosen
+	EvClock   = 7 // the simulated clock jumped by Arg nanoseconds
 )
 
 // Event is one entry of the schedule/fault trace. Trigger = (Task, Op, OpStep); for
@@ -73,6 +74,7 @@ type Event struct {
 	OpStep int64  `json:"os"`   // yields executed inside the op so far (-1: boundary after op)
 	Site   uint32 `json:"site"` // site id of the yield (0 if none)
 	Step   int64  `json:"step"` // global step counter (informational; not used by replay)
+	Arg    int64  `json:"arg,omitempty"`
 }
 
 // Policy describes how preemption and task choice are decided in one run.
@@ -92,6 +94,9 @@ type Policy struct {
 	StallStep int64
 	// gc fault: global steps at which GC is forced (sorted)
 	GCSteps []int64
+	// clock-jump fault: at global step ClockSteps[i] the simulated clock jumps by ClockDeltas[i] ns
+	ClockSteps  []int64
+	ClockDeltas []int64
 	// script (replay)
 	Script []Event
 	First  int // script: first task (-1 = policy decides)
@@ -113,6 +118,7 @@ type Result struct {
 	Unstalled  bool
 	Leaked     bool  // a goroutine spawned by the library was still blocked when every caller had returned
 	Spawned    int64 // goroutines spawned by the library during the run
+	ClockJumps int64
 	Events     []Event
 	Truncated  bool
 	StepsPerOp []int64 // indexed by op id
@@ -157,6 +163,7 @@ var (
 	pctPoints   []int64
 	pctNext     int
 	gcNext      int
+	clkNext     int
 	scriptNext  int
 	herdPhase   bool
 	stallArmed  bool
@@ -350,6 +357,10 @@ func yslow(site uint32, kind int) {
 			gcNext++
 			doGC(site)
 		}
+		for clkNext < len(pol.ClockSteps) && steps >= pol.ClockSteps[clkNext] {
+			doClock(site, pol.ClockDeltas[clkNext])
+			clkNext++
+		}
 	}
 	preempt := false
 	switch pol.Kind {
@@ -405,6 +416,16 @@ func walkDecide(kind int) bool {
 		return true
 	}
 	return false
+}
+
+//go:norace
+func doClock(site uint32, delta int64) {
+	res.ClockJumps++
+	clockOffset += delta
+	logEvent(EvClock, cur, cur, site)
+	if nEvents > 0 && nEvents <= len(evBuf) {
+		evBuf[nEvents-1].Arg = delta
+	}
 }
 
 //go:norace
@@ -595,6 +616,9 @@ func switchAway(site uint32, kind uint8) {
 		logEvent(kind, me, next, site)
 		if tasks[me].op >= 0 {
 			noteOverlapWith(next)
+			if SwitchHook != nil && !tasks[me].child {
+				SwitchHook(int(me))
+			}
 		}
 		handoff(next)
 	} else if kind == EvBlocked {
@@ -712,13 +736,17 @@ func scriptAt(site uint32, kind uint8) {
 		if int32(ev.Task) != me || ev.Op != t.op || ev.OpStep != t.opStep {
 			break
 		}
-		if ev.Kind == EvGC {
+		if ev.Kind == EvGC || ev.Kind == EvClock {
 			if kind == EvBlocked {
 				scriptNext++ // its yield has passed
 				continue
 			}
 			scriptNext++
-			doGC(site)
+			if ev.Kind == EvGC {
+				doGC(site)
+			} else {
+				doClock(site, ev.Arg)
+			}
 			continue
 		}
 		if ev.Kind != kind {
@@ -794,6 +822,9 @@ func scriptSwitch(site uint32, kind uint8, next int32) {
 	logEvent(kind, me, next, site)
 	if tasks[me].op >= 0 {
 		noteOverlap()
+		if SwitchHook != nil && !tasks[me].child {
+			SwitchHook(int(me))
+		}
 	}
 	handoff(next)
 }
@@ -893,6 +924,11 @@ func NotePanic() {
 	}
 }
 
+// SwitchHook, if set, is called on the task's own goroutine whenever a caller task is
+// switched away from in the middle of an operation (the harness uses it to look at the
+// task's argument slice while the call is in flight).
+var SwitchHook func(task int)
+
 // Fault reports a condition the simulator cannot handle (the run must be discarded and
 // the check must end as a machinery problem, never as a verdict).
 //
@@ -959,7 +995,7 @@ func setup(n int, p Policy, nops int) {
 	}
 	thrShared, thrAPI, thrBound = thr(p.PShared), thr(p.PAPI), thr(p.PBound)
 	nextPlain = 1 << 62
-	gcNext, scriptNext, pctNext = 0, 0, 0
+	gcNext, scriptNext, pctNext, clkNext = 0, 0, 0, 0
 	onceReset()
 	herdPhase, stallArmed = false, false
 	pctPoints = pctBuf[:0]
@@ -1025,6 +1061,7 @@ func begin(first int32) {
 
 //go:norace
 func collect() Result {
+	clockBase += steps*1000 + 1_000_000
 	r := res
 	r.Steps = steps
 	r.Signature = sig
